@@ -305,7 +305,7 @@ def coq_hr(kw):
     return "None"
 
 
-def coq_obs(c, item):
+def coq_obs(c, item, shared=False):
     if item[0] == "snap":
         _, t, v, en, comp, ign, tp, wp = item
         if c["kind"] == "accrual":
@@ -329,6 +329,10 @@ def coq_obs(c, item):
         if c["kind"] == "accrual":
             if not isinstance(v, list) or (v and not isinstance(v[0], bool)):
                 return BAD
+            if shared:
+                # the event carries a reference to the live list: when one shared event advances two steps the
+                # handler of the first update already sees the second step (NOTES.md, "aliasing"); not compared
+                return "(OEv %s (EUpdatedAny %s))" % (zlit(t), blit(en))
             return "(OEv %s (EUpdated 0 %s %s))" % (zlit(t), coqlist(blit(x) for x in v), blit(en))
         if not isinstance(v, int):
             return BAD
@@ -370,7 +374,13 @@ def coq_case(case, out):
         groups = block_groups(case, b)
         ins.append("(%s, %s)" % (coq_cfg(c), coqlist("(%s, %s)" % (zlit(t), coqlist(coq_op(o) for o in mops))
                                                        for t, mops in groups)))
-        exps.append(coqlist(coq_obs(c, it) for it in out["logs"][b]))
+        terms, gi = [], 0
+        for it in out["logs"][b]:
+            shared = c["kind"] == "accrual" and gi < len(groups) and len(groups[gi][1]) >= 2
+            terms.append(coq_obs(c, it, shared))
+            if it[0] == "snap":
+                gi += 1
+        exps.append(coqlist(terms))
     return "(%s, %s)" % (coqlist(ins), coqlist(exps))
 
 
